@@ -2,7 +2,8 @@
   Driver for C17: runs the LOBPCG bookkeeping model (`Model/LOBPCG.lean`) at `Float`, with the operators A, B, T given as sparse
   row lists and the numeric inner solvers replaced by the outputs recorded from the real run (orthonormalised blocks, raw Ritz
   values / coefficient matrices).  Everything else — products, residuals, column norms and the convergence test, column removal,
-  `sort_epairs`, the update of X/AX/BX/D/AD/BD, `m_info`, the accessors — is computed by the model.
+  `sort_epairs`, the update of X/AX/BX/D/AD/BD, `m_info` (reset at the top of `compute`), the accessors (`eigenvectors()` = X; the
+  public member `m_evectors` is reported as `coef`) — is computed by the model.
 -/
 import SpectraVerif.Driver.Util
 import SpectraVerif.Model.LOBPCG
@@ -104,7 +105,8 @@ def runCase : P String := do
   pure (joinSp [
     s!"threw={if o.threw then 1 else 0}", s!"info={(info o.s).code}", s!"iters={done}", s!"dels={delStr}",
     joinSp (s!"evals={(eigenvalues o.s).length}x1" :: (eigenvalues o.s).map cz),
-    showCols "evecs" 0 (eigenvectors o.s),
+    showCols "evecs" n (colsOf (eigenvectors o.s)),
+    showCols "coef" 0 o.s.evecs,
     showCols "resid" n (colsOf (residuals o.s)),
     showCols "X" n (colsOf o.s.X),
     "sh=1"])
